@@ -74,6 +74,7 @@ def run(F, chk):
     regs = sorted(set(VE.named_versions().values())) if chk.tier == "quick" else sorted(set(VE.regions()))
     classes = sorted(set(c11.factory_types(F)) | {"nifly::NiHeader", "nifly::NiUnknown"})
     ev = {(c, d): B.events(c, d) for c in classes for d in ("read", "write")}
+    hand = hand_pairs(F, B)
     groups = c08.signature_groups(B, VE, regs)
     chk.extra["regions"] = len(regs)
     chk.extra["distinct_version_behaviours"] = len(groups)
@@ -126,6 +127,36 @@ def run(F, chk):
                                "write": [schema.fmt(x) for x in we[max(0, i - 2):i + 3]]})
     chk.extra["mode_specific_functions_seen"] = sorted(modesplit_fns)
     chk.floor(R3, 600)
+
+    # ------------------------------------------------------------------ R1.7 hand-written Read/Write pairs
+    R7 = chk.rule("R1.7", "every hand-written Read/Write pair (string types), for every constant width it is called with and in every "
+                          "version region, transfers the same sequence of primitive kinds and widths in both directions "
+                          "(local names are not compared; transfers under a data gate such as the optional terminator are set aside)")
+    for (cls, k), (rfn, wfn, revs, wevs) in sorted(hand.items()):
+        seen_shapes = set()
+        for sig, rs in sorted(groups.items(), key=lambda kv: kv[1][0]):
+            rv = schema.RegionView(B, VE, rs[0])
+            rsh = [(e[0], e[2] if isinstance(e[2], int) else None, e[3]) for e in rv.project(revs, drop_local_gates=True) if not e[4]]
+            wsh = [(e[0], e[2] if isinstance(e[2], int) else None, e[3]) for e in rv.project(wevs, drop_local_gates=True) if not e[4]]
+            shape = (tuple(rsh), tuple(wsh))
+            if shape in seen_shapes:
+                continue
+            seen_shapes.add(shape)
+            same = rsh == wsh
+            chk.instance(R7, ok=same, sample={"pair": cls, "width_argument": k, "version": "%08x/%d/%d" % rs[0], "transfers": len(rsh)},
+                         nontrivial=len(rsh) > 0)
+            if not same:
+                i = 0
+                while i < min(len(rsh), len(wsh)) and rsh[i] == wsh[i]:
+                    i += 1
+                a = "%s[%s]" % rsh[i][:2] if i < len(rsh) else "<end>"
+                b = "%s[%s]" % wsh[i][:2] if i < len(wsh) else "<end>"
+                chk.violation("R1.7", "C01/R1.7:%s:%s" % (cls, k), where(wfn),
+                              "%s::Read and %s::Write (width argument %s, version %08x/%d/%d) disagree at transfer #%d: Read does `%s`, "
+                              "Write does `%s` — a string written by the library is not read back as written" % (
+                                  cls, cls, k, rs[0][0], rs[0][1], rs[0][2], i, a, b),
+                              {"read": ["%s[%s]" % x[:2] for x in rsh], "write": ["%s[%s]" % x[:2] for x in wsh]})
+    chk.floor(R7, 6)
 
     # ------------------------------------------------------------------ R1.4
     total = 0
@@ -208,6 +239,37 @@ def run(F, chk):
                         "their widths are compared under C08"]
     chk.extra["explanation"] = ("read/write symmetry of the code for all registered classes and version regions, CRTP wiring, "
                                 "count/array coherence, registry completeness and pruning fixpoint; byte equality is not decided")
+
+
+def hand_pairs(F, B):
+    """{(class, width constant or None): (Read fn, Write fn, read events, write events)} for every class with a hand-written
+    Read(NiIStream&, ...) / Write(NiOStream&, ...) pair; the width constants are those passed at the call sites"""
+    pairs = {}
+    for fn in F.fns.values():
+        if fn.get("tmpl") == "pattern" or not fn.get("cls") or not fn.get("body"):
+            continue
+        ps = fn.get("params", [])
+        if fn["short"] == "Read" and ps and "NiIStream" in (ps[0].get("ct") or ps[0].get("t") or ""):
+            pairs.setdefault(fn["cls"], {})["r"] = fn
+        if fn["short"] == "Write" and ps and "NiOStream" in (ps[0].get("ct") or ps[0].get("t") or ""):
+            pairs.setdefault(fn["cls"], {})["w"] = fn
+    out = {}
+    for cls, p in pairs.items():
+        if "r" not in p or "w" not in p:
+            continue
+        ks = set()
+        if len(p["r"]["params"]) > 1 and "int" in (p["r"]["params"][1].get("t") or ""):
+            targets = {p["r"]["id"], p["w"]["id"]} | {f["id"] for f in F.fns.values() if f.get("cls") == cls and f["short"] == "Sync"}
+            for f in F.fns.values():
+                for n in walk(f.get("body") or {}):
+                    if n["k"] == "Call" and n.get("fid") in targets and len(n.get("args", [])) > 1:
+                        a = n["args"][1]
+                        if is_node(a) and a.get("val") is not None and a["k"] != "Ref":
+                            ks.add(a["val"])
+        for k in (sorted(ks) or [None]):
+            consts = {1: k} if k is not None else None
+            out[(cls, k)] = (p["r"], p["w"], B.fn_events(p["r"]["id"], "read", consts), B.fn_events(p["w"]["id"], "write", consts))
+    return out
 
 
 def _names_own(e, cls):
